@@ -1090,23 +1090,9 @@ def minimise(case, bucket):
 # ------------------------------------------------------------------ shard
 
 def in_fresh_thread(fn, *args):
-    """Only a matter of speed (same device as lv/props/c14.py): under Hypothesis the
-    interpreter's frame stack sits where the compiler's recursive descent keeps crossing
-    a stack-chunk boundary; a new thread has its own stack."""
-    import threading
-    box = {}
-
-    def run():
-        try:
-            box['value'] = fn(*args)
-        except BaseException as e:
-            box['error'] = e
-    t = threading.Thread(target=run)
-    t.start()
-    t.join()
-    if 'error' in box:
-        raise box['error']
-    return box['value']
+    """Speed only: see core.deep_call (big-frame trampoline against data-stack chunk
+    thrash; the first remedy tried here was a new thread)."""
+    return core.deep_call(fn, *args)
 
 
 class Hist(object):
@@ -1301,11 +1287,11 @@ def shard(ctx, col):
             H.end()
 
     try:
-        run_state_machine_as_test(
+        core.deep_call(lambda: run_state_machine_as_test(
             hypothesis.seed(ctx.hyp_seed)(Machine),
             settings=settings(max_examples=ctx.budget, stateful_step_count=prm['steps'],
                               database=None, deadline=None, phases=[Phase.generate],
                               derandomize=False, report_multiple_bugs=False,
-                              suppress_health_check=list(HealthCheck)))
+                              suppress_health_check=list(HealthCheck))))
     finally:
         H.end()
